@@ -7,9 +7,12 @@ CONSTANTS
   ChunkSizes <- MCOne
   NetMayFail = FALSE
   MayLeaveLitter = FALSE
+  CloseDelimited = TRUE
   WriteInPlace = FALSE
   PersistBeforeStatusCheck = TRUE
   TruncatedIsSuccess = FALSE
+  SkipValidation = FALSE
+  FixedTempName = FALSE
   NoStaleFallback = FALSE
   AbortOnRefreshError = FALSE
 INVARIANTS FailKeeps
